@@ -807,3 +807,223 @@ def u_until_closed(ip: Interp, th: PoolTheory):
     setters = [q for q in ip.repo.references("_closed") if q.startswith("pool.")]
     ip.require(st, "callgraph:_closed-assigned-only-in-__init__", z3.BoolVal(writers == ["pool.BaseTaskPool.__init__"]), ("C08",), meta={"writers": writers})
     ip.require(st, "callgraph:_closed-used-only-by-known-functions", z3.BoolVal(set(setters) <= {"pool.BaseTaskPool.__init__", "pool.BaseTaskPool._check_start", "pool.BaseTaskPool.gather_and_close", "pool.BaseTaskPool.until_closed"}), ("C08",), meta={"users": setters})
+
+
+# ======================================================================================================
+# map consumer thread  _arg_consumer  +  release_callback  +  helpers.star_function     (C05, C07, C12, C02)
+# ======================================================================================================
+from pyvc.sym import CoroV, FuncV, PlaceV, StarV  # noqa: E402
+from pyvc.interp import NORMAL, Frame  # noqa: E402
+from .pool_theory import UserIterV  # noqa: E402
+from .pool_units import c_start_task, use_start_task_contract  # noqa: E402
+
+
+def map_sem_inv(nc):
+    def extra(sh):
+        if "$msem" not in sh:
+            return []
+        m: SemV = sh["$msem"]
+        return [("MS.map-slots-conserved", z3.And(z3.Not(m.v.inf), m.v.k >= 0, m.g >= 0, m.P >= 0, m.out >= 0, m.v.k + m.g + m.out == nc), ("C05",)),
+                ("MS.at-most-num_concurrent-of-the-call-hold-a-slot", m.out <= nc, ("C05",))]
+
+    return extra
+
+
+class ConsumerTheory(PoolTheory):
+    """PoolTheory + the per-call semaphore of one map call as an extra shared component `$msem`"""
+
+    nc = None
+
+    def new_semaphore(self, st, fr, pos):
+        if fr.qual.endswith("._arg_consumer"):
+            if len(pos) != 1 or not isinstance(pos[0], IntV):
+                raise Unsupported("Semaphore(...) in _arg_consumer")
+            self.ip.require(st, "map-semaphore:created-with-num_concurrent", pos[0].t == self.nc, ("C05",))
+            sem = SemV(ExtV(False, pos[0].t), z3.IntVal(0), z3.IntVal(0), z3.IntVal(0), fresh("mapsem", Ref))
+            sem.tokarr = "mtok"
+            st.sh["$msem"] = sem
+            return [(st, PlaceV(("sh", "$msem")))]
+        return super().new_semaphore(st, fr, pos)
+
+    def special_iter(self, st, fr, node, ordinal, d):
+        if isinstance(d, UserIterV):
+            return self.user_loop(st, fr, node, ordinal, d)
+        return None
+
+    def user_loop(self, st: St, fr, node, ordinal, d: UserIterV):
+        """`for i, x in enumerate(<user iterable>)`: every advance of the iterator is a call-out to user code"""
+        from pyvc.theory import LoopCtx, havoc_like
+
+        ip = self.ip
+        spec = ip.loopspecs[(fr.qual, ordinal)]
+        lname = spec.name
+        st0 = st.fork()
+        mod_locals = sorted(set(self.assigned_names(node.body + [node.target])) | {n for n in st.loc if n.startswith("$")})
+        self.loop_head_check(st, f"{lname}:entry")
+        for label, f in spec.inv(LoopCtx(st0, st, z3.IntVal(0), None, fr)):
+            ip.require(st, f"loopinv-entry:{lname}:{label}", f, spec.props)
+        s = st.fork()
+        for n in mod_locals:
+            if n in s.loc:
+                s.loc[n] = havoc_like(s.loc[n], f"UL_{n}")
+        self.havoc_shared(s, self.shared_keys(s), "UL")
+        self.container_facts(s)
+        self.after_loop_havoc(s, st0, ["*"])
+        i = fresh("i", I)
+        s.assume(i >= 0)
+        for _l, f in spec.inv(LoopCtx(st0, s, i, None, fr)):
+            s.assume(f)
+        # advance the iterator: call-out
+        ip.require(s, "iter:not-advanced-after-a-cancellation-request", z3.Not(self.ghost(s, "creq", s.me)), ("C07",))
+        s.trace.append(("next", d.ref.t))
+        self.observe(s, f"{fr.qual.split('.')[-1]}@next(arg_iter)")
+        # the property excludes a group cancellation issued re-entrantly from inside the group's own argument iterator
+        s.assume(z3.Not(self.ghost(s, "creq", s.me)))
+        out = []
+        done = s.fork()
+        done.tags.append(f"{lname}:exhausted")
+        out.append((done, NORMAL))
+        body = s.fork()
+        body.tags.append(f"{lname}:element")
+        body.loc["$pulled"] = IntV(body.loc["$pulled"].t + 1)
+        elem = RefV(fresh("elem", Ref))
+        item = TupleV([IntV(i), elem]) if d.enumerate_ else elem
+        for s2, ex2 in ip.assign(body, fr, node.target, item):
+            for s3, ex in ip.block(s2, fr, node.body):
+                if ex.kind in ("normal", "continue"):
+                    self.loop_head_check(s3, f"{lname}:step")
+                    for label, f in spec.inv(LoopCtx(st0, s3, i + 1, None, fr)):
+                        ip.require(s3, f"loopinv-step:{lname}:{label}", f, spec.props)
+                elif ex.kind == "break":
+                    out.append((s3, NORMAL))
+                else:
+                    out.append((s3, ex))
+        return out
+
+
+def inv_arg_consumer(c):
+    st = c.st
+    me = st.me
+    g = lambda n: st.loc[n].t
+    return [("one-element-at-a-time", z3.And(g("$pulled") == c.i, g("$started") + g("$skipped") == c.i, g("$starcalls") == c.i)),
+            ("holds-nothing-at-loop-head", z3.And(z3.Not(z3.Select(st.sh["tok"].t, me)), z3.Not(z3.Select(st.sh["mtok"].t, me)), z3.Select(st.sh["loc"].t, me) == L_RUN)),
+            ("not-cancelled-at-loop-head", z3.Not(z3.Select(st.sh["creq"].t, me))),
+            ("my-semaphore", z3.Select(st.sh["msem"].t, me) == st.sh["$msem"].ident)]
+
+
+LOOPSPECS[(P_T + "_arg_consumer", 1)] = LoopSpec(inv_arg_consumer, ("C05",), name="consume")
+
+
+def u_arg_consumer(ip: Interp, th: ConsumerTheory):
+    install(ip)
+    use_start_task_contract(ip)
+    th.loops_need_inv = True
+    st = th.initial(me_kind=K_MAP)
+    me = st.me
+    p = PView(st)
+    st.assume(z3.Select(p.loc, me) == L_NS)
+    st.assume(z3.Not(z3.Select(p.creq, me)))
+    st.assume(z3.And(z3.Not(z3.Select(p.tok, me)), z3.Not(z3.Select(p.mtok, me))))
+    nc = fresh("a_num_concurrent", I)
+    st.assume(nc >= 1)  # _map rejects num_concurrent < 1 (unit pool.TaskPool._map)
+    th.nc = nc
+    th.extra_inv = map_sem_inv(nc)
+    a = {"group_name": StrV(fresh("a_group", S)), "num_concurrent": IntV(nc), "func": RefV(fresh("a_func", Ref)), "arg_iter": RefV(fresh("a_iter", Ref)),
+         "arg_stars": IntV(fresh("a_stars", I)), "end_callback": RefV(fresh("a_ecb", Ref)), "cancel_callback": RefV(fresh("a_ccb", Ref))}
+    st.assume(z3.And(a["arg_stars"].t >= 0, a["arg_stars"].t <= 2, a["func"].t != NONE, a["arg_iter"].t != NONE))
+    st.assume(a["group_name"].t == z3.Select(p.grp, me))
+    th.set_ghost(st, "loc", me, z3.IntVal(L_RUN))
+    st.aux["seg0"] = dict(st.sh)
+    th.instantiate_for_me(st)
+    for gname in ("$pulled", "$started", "$skipped", "$starcalls"):
+        st.loc[gname] = IntV(0)
+    # my semaphore identity is recorded in the ghost `msem[me]` when it is created (first segment)
+    orig_new = th.new_semaphore
+
+    def new_sem(s, fr, pos):
+        res = orig_new(s, fr, pos)
+        for s2, v in res:
+            if "$msem" in s2.sh:
+                th.set_ghost(s2, "msem", me, s2.sh["$msem"].ident)
+        return res
+
+    th.new_semaphore = new_sem
+
+    def on_corocall(s: St, fn_t, cargs, ckws):
+        # star_function(func, next_arg, arg_stars) -> func(arg) / func(*arg) / func(**arg): checked in unit helpers.star_function;
+        # here: the call goes to the requested function with the element just pulled
+        ip.require(s, "invoke:the-requested-function", fn_t == a["func"].t, ("C05",))
+        s.loc["$starcalls"] = IntV(s.loc["$starcalls"].t + 1)
+
+    th.on_corocall = on_corocall
+    th.on_call_raised = lambda s: s.loc.__setitem__("$skipped", IntV(s.loc["$skipped"].t + 1))
+
+    def before_observe(s: St, label: str):
+        if "acquire[mtok]" in label:
+            ip.require(s, "lazy:at-most-one-element-pulled-ahead", s.loc["$pulled"].t == s.loc["$started"].t + s.loc["$skipped"].t + 1, ("C05",))
+
+    th.before_observe = before_observe
+    for s, v in run_body(ip, th, st, P_T + "_arg_consumer", a):
+        th.set_ghost(s, "loc", me, z3.IntVal(L_DONE))
+        th.check_point(s, "thread-end")
+        if isinstance(v, Exit):
+            ip.require(s, f"noraise:{v.val.cls}:consumer-must-not-die", z3.BoolVal(False), ("C05", "C12", "C08"))
+            continue
+        ip.require(s, "end:no-slot-retained", z3.And(z3.Not(th.ghost(s, "tok", me)), z3.Not(th.ghost(s, "mtok", me))), ("C02", "C05"))
+        cancelled = any(t in ("_start_task:cancelled", "cancelled-pending", "cancelled-granted") for t in s.tags)
+        if cancelled:
+            ip.require(s, "cancelled:built-coroutine-closed", z3.BoolVal(len([e for e in s.trace if e[0] == "close"]) == 1), ("C02",))
+        else:
+            ip.require(s, "post:every-pulled-element-started-or-skipped-because-the-call-raised", s.loc["$pulled"].t == s.loc["$started"].t + s.loc["$skipped"].t, ("C05", "C12"))
+
+
+UNITS.append(Unit(P_T + "_arg_consumer[thread]", u_arg_consumer, ("C05", "C07", "C12", "C02", "C08", "C01"), [P_T + "_arg_consumer", P_T + "_get_map_end_callback"],
+                  theory_factory=lambda: ConsumerTheory("TaskPool"), trusted=TRUSTED))
+
+
+def u_release_callback(ip: Interp, th: ConsumerTheory):
+    """the wrapped end callback of map tasks: runs in the wrapper thread of a task of the call, inside _task_ending's call-out"""
+    install(ip)
+    st = th.initial(me_kind=K_WRAPPER)
+    me = st.me
+    p = PView(st)
+    nc = fresh("a_num_concurrent", I)
+    st.assume(nc >= 1)
+    th.nc = nc
+    th.extra_inv = map_sem_inv(nc)
+    sem = SemV(ExtV(False, fresh("ms_v", I)), fresh("ms_g", I), fresh("ms_P", I), fresh("ms_out", I), fresh("mapsem", Ref))
+    sem.tokarr = "mtok"
+    st.sh["$msem"] = sem
+    for _n, f, _p in th.extra_inv(st.sh):
+        st.assume(f)
+    # where the wrapper is when it calls its end callback (established by unit _task_wrapper[thread])
+    tid = z3.Select(p.tid, me)
+    st.assume(z3.And(z3.Select(p.loc, me) == L_ECB, z3.Not(z3.Select(p.tok, me)), z3.Select(p.mtok, me), z3.Select(p.msem, me) == sem.ident))
+    th.instantiate_for_me(st)
+    st.aux["seg0"] = dict(st.sh)
+    user_cb = RefV(fresh("a_actual_end_callback", Ref))
+    fi = ip.repo.get(P_T + "_get_map_end_callback")
+    # the real factory returns the real closure
+    res = ip.exec_function(st.fork(), fi, None, {"map_semaphore": PlaceV(("sh", "$msem")), "actual_end_callback": user_cb})
+    ip.require(st, "_get_map_end_callback:returns-the-release-closure", z3.BoolVal(len(res) == 1 and isinstance(res[0][1], FuncV) and res[0][1].name == "release_callback"), ("C05",))
+    node = ip.repo.nested_def(fi, "release_callback")
+    closure = FuncV(node=node, env={"map_semaphore": PlaceV(("sh", "$msem")), "actual_end_callback": user_cb}, name="release_callback")
+    fr = Frame(fi, fi.module, None, 0, qual=P_T + "_get_map_end_callback")
+
+    def on_callout(s: St, fr_, fn_t, cargs, loc):
+        rel = [e for e in s.trace if e[0] == "release" and e[1] == "mtok"]
+        ip.require(s, "order:map-slot-released-before-the-user's-end-callback", z3.BoolVal(len(rel) == 1), ("C12", "C05"))
+        ip.require(s, "callout:user-end-callback-with-the-task-id", z3.And(fn_t == user_cb.t, cargs[0].t == tid if (len(cargs) == 1 and isinstance(cargs[0], IntV)) else z3.BoolVal(False)), ("C03", "C05"))
+
+    th.on_callout = on_callout
+    for s, v in ip.run_closure(st, fr, closure, {"task_id": IntV(tid)}):
+        th.check_point(s, "return")
+        rel = [e for e in s.trace if e[0] == "release" and e[1] == "mtok"]
+        ip.require(s, "count:map-slot-released-exactly-once-on-every-outcome", z3.BoolVal(len(rel) == 1), ("C05", "C12"))
+        ip.require(s, "post:no-map-slot-retained", z3.Not(th.ghost(s, "mtok", me)), ("C05",))
+        if isinstance(v, Exit):
+            ip.require(s, f"noraise:pool-internal-exception:{v.val.cls}", z3.BoolVal(getattr(v.val, "origin", "pool") == "user"), ("C12",))
+
+
+UNITS.append(Unit(P_T + "_get_map_end_callback.release_callback", u_release_callback, ("C05", "C12", "C03"), [P_T + "_get_map_end_callback", "helpers.execute_optional"],
+                  theory_factory=lambda: ConsumerTheory("TaskPool"), trusted=TRUSTED))
